@@ -10,7 +10,7 @@ import (
 	"github.com/onheap/eval"
 )
 
-var contentChars = []string{"a", "b", "SP", "(", ")", ";", ",", "[", "]", "BS", "NL", "TAB", "NBSP", "IDSP", "CR", "Eacute", "CTL", "U", "!", "-", "1",
+var contentChars = []string{"a", "b", "SP", "(", ")", ";", ",", "[", "]", "BS", "NL", "TAB", "NBSP", "IDSP", "CR", "Eacute", "Agrave", "Ni", "CTL", "U", "!", "-", "1",
 	"%", ":", "+", "=", "<", "&", "|", "*", "/", ".", "_", "n", "t", "0"}
 var plainChars = []string{"a", "b", "SP", "(", ")", ";", ",", "[", "Eacute", "1"}
 
